@@ -264,7 +264,7 @@ fn build_model(t: &Train, p: &Payload, payload: &[u8]) -> Model {
                 const KEEP: u64 = 0x00FF_FF00; // bits that fix the alphabet / context bytes in gen::expand
                 Model::Data(expand(*content, *len, (seed & KEEP) | (s2 & !KEEP)))
             }
-            Payload::Raw(_) => {
+            Payload::Raw(_) | Payload::Framed { .. } => {
                 let mut v = payload.to_vec();
                 v.reverse();
                 Model::Data(v)
@@ -519,32 +519,55 @@ fn par_cfg(aux: u8) -> ParallelConfig {
     }
 }
 
+/// A payload with another histogram than `payload` (symbols permuted, second half constant):
+/// the first round of an object-reuse history.
+fn other_payload(payload: &[u8]) -> Vec<u8> {
+    let n = payload.len().clamp(2, 600);
+    (0..n).map(|i| if i < n / 2 { payload.get(i).copied().unwrap_or(7).wrapping_mul(37).wrapping_add(101) } else { 0x41 }).collect()
+}
+
 fn run_par_huff<V: zipora::entropy::parallel::ParallelVariant>(ctx: &mut Ctx, payload: &[u8], train: &[u8], aux: u8, explicit_train: bool) {
     let cfg = par_cfg(aux);
     let Some(mut enc) = attempt(ctx, "model", || ParallelHuffmanEncoder::<V>::new(cfg.clone())) else { return };
-    // the decoder needs the tree; the encoder does not expose its own, so build it the way
-    // `train` does (HuffmanTree::from_data on the same bytes)
-    let tree_src: &[u8] = if explicit_train { train } else { payload };
-    if explicit_train && attempt(ctx, "model", || enc.train(train)).is_none() {
-        return;
-    }
-    let Some(bytes) = attempt(ctx, "encode", || enc.encode(payload)) else { return };
-    encoded_ok(ctx, payload);
-    let Some(tree) = attempt(ctx, "model", || HuffmanTree::from_data(tree_src)) else { return };
-    let bucket = codelen_bucket(tree.max_code_length());
     let mut dec = ParallelHuffmanDecoder::<V>::new(cfg);
-    match try_call(|| dec.set_tree(tree)) {
-        Ok(Ok(())) => {}
-        Ok(Err(e)) => {
-            ctx.fail("roundtrip", "err", "set_tree", format!("{e}"));
+    // object reuse: the same encoder and decoder objects first serve another payload with
+    // another tree, then are re-armed (train / set_tree) for the checked payload
+    let rounds: Vec<(Vec<u8>, Vec<u8>, bool)> = if aux & 32 != 0 {
+        ctx.label("par_huff_objects_reused");
+        let w = other_payload(payload);
+        vec![(w.clone(), w, true), (payload.to_vec(), train.to_vec(), explicit_train)]
+    } else {
+        vec![(payload.to_vec(), train.to_vec(), explicit_train)]
+    };
+    let last = rounds.len() - 1;
+    for (k, (payload, train, explicit_train)) in rounds.iter().enumerate() {
+        let (payload, train, explicit_train) = (&payload[..], &train[..], *explicit_train);
+        // the decoder needs the tree; the encoder does not expose its own, so build it the way
+        // `train` does (HuffmanTree::from_data on the same bytes)
+        let tree_src: &[u8] = if explicit_train { train } else { payload };
+        if explicit_train && attempt(ctx, "model", || enc.train(train)).is_none() {
             return;
         }
-        Err(p) => {
-            ctx.fail("roundtrip", "panic", &p.class(), p.msg.clone());
-            return;
+        let Some(bytes) = attempt(ctx, "encode", || enc.encode(payload)) else { return };
+        if k == last {
+            encoded_ok(ctx, payload);
         }
+        let Some(tree) = attempt(ctx, "model", || HuffmanTree::from_data(tree_src)) else { return };
+        let bucket = codelen_bucket(tree.max_code_length());
+        match try_call(|| dec.set_tree(tree)) {
+            Ok(Ok(())) => {}
+            Ok(Err(e)) => {
+                ctx.fail("roundtrip", "err", "set_tree", format!("{e}"));
+                return;
+            }
+            Err(p) => {
+                ctx.fail("roundtrip", "panic", &p.class(), p.msg.clone());
+                return;
+            }
+        }
+        let class = if last > 0 { format!("{bucket},reused_round{k}") } else { bucket.to_string() };
+        check_decoded(ctx, "roundtrip", &class, payload, try_call(|| dec.decode(&bytes, payload.len())));
     }
-    check_decoded(ctx, "roundtrip", bucket, payload, try_call(|| dec.decode(&bytes, payload.len())));
 }
 
 // ---------------------------------------------------------------------------------------
@@ -843,9 +866,24 @@ fn run_fse(ctx: &mut Ctx, payload: &[u8], train: &[u8], t: &Train, preset: &str,
     };
     let Some(bytes) = encoded else { return };
     encoded_ok(ctx, payload);
+    // encoder-object paths: with aux & 32 the decoder object has already decoded another block
+    let warm = if (path == 1 || path == 2) && aux & 32 != 0 {
+        try_call(|| FseEncoder::new(cfg.clone())?.compress(&other_payload(payload))).ok().and_then(|r| r.ok())
+    } else {
+        None
+    };
+    if warm.is_some() {
+        ctx.label("fse_decoder_object_reused");
+    }
     let r = try_call(|| match path {
         0 => fse_decompress_with_config(&bytes, cfg.clone()),
-        1 | 2 => FseDecoder::with_config(cfg.clone())?.decompress(&bytes),
+        1 | 2 => {
+            let mut d = FseDecoder::with_config(cfg.clone())?;
+            if let Some(w) = &warm {
+                let _ = d.decompress(w);
+            }
+            d.decompress(&bytes)
+        }
         3 => fse_decompress(&bytes),
         _ => fse_unzip(&bytes),
     });
@@ -957,8 +995,13 @@ fn run_tree_serde_dict(ctx: &mut Ctx, payload: &[u8], train: &[u8], aux: u8) {
 // AdaptiveParallelEncoder (algorithm + variant chosen from the data)
 // ---------------------------------------------------------------------------------------
 
-fn run_par_adaptive(ctx: &mut Ctx, payload: &[u8]) {
+fn run_par_adaptive(ctx: &mut Ctx, payload: &[u8], aux: u8) {
     let Some(mut enc) = attempt(ctx, "model", AdaptiveParallelEncoder::new) else { return };
+    if aux & 32 != 0 {
+        // object reuse: the encoder has already served another payload
+        ctx.label("par_adaptive_object_reused");
+        let _ = try_call(|| enc.encode_adaptive(&other_payload(payload)));
+    }
     let (alg, variant) = enc.select_optimal_encoding(payload);
     ctx.label(format!("par_adaptive_selected={alg}_{variant}"));
     let Some(bytes) = attempt(ctx, "encode", || enc.encode_adaptive(payload)) else { return };
@@ -1029,6 +1072,11 @@ impl Prop for P {
             v.push(Plan::new(&format!("par_huff_x{n}"), q(400, 10_000), 0, case(payload(max, none), train_data(max))));
         }
         v.push(Plan::new("par_adaptive", q(500, 12_000), 0, case(payload(max, none), same())));
+        // the selector switches algorithm and stream count at 64 KiB and 1 MiB
+        let large = (proptest::sample::select(ALL_CONTENT.to_vec()), prop_oneof![(1usize << 20) - 2..(1 << 20) + 3, (1usize << 20) - 2..(1 << 20) + 70_000, 65_534usize..65_539], any::<u64>())
+            .prop_map(|(content, len, seed)| Payload::Gen { content, len, seed })
+            .boxed();
+        v.push(Plan::new("par_adaptive_large", q(16, 300), q(2, 30), case(large, same())));
         for (name, _) in SIMD_TIERS {
             v.push(Plan::new(&format!("simd_huff_{name}"), q(700, 12_000), q(70, 1200), case(payload(max, deep), train_data(max))));
         }
@@ -1079,7 +1127,7 @@ impl Prop for P {
             "par_huff_x2" => run_par_huff::<ParallelX2Variant>(ctx, &payload, &model_bytes(model), c.aux, !matches!(c.t, Train::Same) || c.aux & 16 != 0),
             "par_huff_x4" => run_par_huff::<ParallelX4Variant>(ctx, &payload, &model_bytes(model), c.aux, !matches!(c.t, Train::Same) || c.aux & 16 != 0),
             "par_huff_x8" => run_par_huff::<ParallelX8Variant>(ctx, &payload, &model_bytes(model), c.aux, !matches!(c.t, Train::Same) || c.aux & 16 != 0),
-            "par_adaptive" => run_par_adaptive(ctx, &payload),
+            "par_adaptive" | "par_adaptive_large" => run_par_adaptive(ctx, &payload, c.aux),
             "tree_serde_ctx" => run_tree_serde_ctx(ctx, &payload, &model_bytes(model), c.aux),
             "tree_serde_dict" => run_tree_serde_dict(ctx, &payload, &model_bytes(model), c.aux),
             other => {
